@@ -1688,6 +1688,21 @@ fn cover_proj(profile: &str, p: &Pools, rng: &mut Rng, out: &mut Vec<String>, pi
                 // (double precision only: in f32 the rounding of the determinant, eps |M|^n, is of the size of g det M itself)
                 emit1("near_sing_proj", vec![m, Val::I(gc)], out, pid);
             } } }
+            // subnormal determinants: monomial matrices with entries +-1, +-2, +-1/2 (scaled natively by the recorder), f64 and f32
+            for n in [2usize, 3] { for route in 0..2i64 { for _ in 0..6 {
+                let ent = |rng: &mut Rng| *rng.pick(&[q(1, 1), q(-1, 1), q(2, 1), q(-2, 1), q(1, 2), q(-1, 2)]);
+                let z = q(0, 1);
+                let m = if n == 2 {
+                    let (a, b) = (ent(rng), ent(rng));
+                    Val::M2(if rng.chance(1, 2) { Matrix2::new(a, z, z, b) } else { Matrix2::new(z, a, b, z) })
+                } else {
+                    let perms: [[usize; 3]; 6] = [[0, 1, 2], [0, 2, 1], [1, 0, 2], [1, 2, 0], [2, 0, 1], [2, 1, 0]];
+                    let pm = perms[rng.below(6)];
+                    let col = |r: usize, x: Q| { let mut v = [z, z, z]; v[r] = x; Vector3::new(v[0], v[1], v[2]) };
+                    Val::M3(Matrix3::from_cols(col(pm[0], ent(rng)), col(pm[1], ent(rng)), col(pm[2], ent(rng))))
+                };
+                emit1s("subnormal_det_proj", vec![m, Val::I(route)], F2, out, pid);
+            } } }
         }
         "C05" | "C06" => {
             let (z, o) = (q(0, 1), q(1, 1));
